@@ -91,6 +91,10 @@ def file_api_cases(ck, cases, nmax):
                     continue
                 out.append((c, fmt, False, 'run failed: ' + o[:100], names))
                 continue
+            if os.path.getsize(outp) > (64 << 20) + 40 * sum(len(x) for x in seqs) * max(1, len(seqs)):
+                # an alignment of n rows cannot be longer than n * (sum of the lengths) columns; a file far beyond that is not parsed
+                out.append((c, fmt, False, 'output file of %d bytes for %d residues of input' % (os.path.getsize(outp), sum(len(x) for x in seqs)), names))
+                continue
             text = open(outp, encoding='latin-1').read()
             if fmt == 'fasta':
                 onames, rows = gen.parse_fasta(text)
